@@ -21,19 +21,21 @@ pub fn plan(prop: &str, tier: &str) -> Vec<PartPlan> {
     let t = tier == "thorough";
     let h = |q: u32, th: u32| if t { pp("hist", 16, th / 16) } else { pp("hist", 16, q / 16) };
     match prop {
-        "C01" => vec![h(1600, 48000)],
-        "C03" => vec![h(1600, 48000)],
-        "C04" => vec![h(1600, 48000)],
-        "C05" => vec![h(800, 16000)],
-        "C06" => vec![h(1200, 32000)],
-        "C07" => vec![h(1200, 32000)],
-        "C08" => vec![h(1600, 48000)],
-        "C11" => vec![h(1200, 32000)],
-        "C12" => vec![h(1600, 48000)],
-        "C13" => vec![h(1200, 32000)],
-        "C14" => vec![h(1200, 32000)],
-        "C15" => vec![h(1600, 48000)],
-        "C19" => vec![h(800, 16000)],
+        "C01" => vec![h(16000, 384000)],
+        "C02" => vec![if t { pp("deliver", 16, 40000 / 16) } else { pp("deliver", 16, 3200 / 16) }],
+        "C03" => vec![h(16000, 384000)],
+        "C04" => vec![h(16000, 384000)],
+        "C05" => vec![h(8000, 128000), if t { pp("trees", 16, 1_000_000 / 16) } else { pp("trees", 16, 40_000 / 16) }, pp("tree-exhaustive", 16, 0)],
+        "C06" => vec![h(12000, 256000), pp("merge-exhaustive", 16, 0)],
+        "C07" => vec![h(12000, 256000)],
+        "C08" => vec![h(16000, 384000)],
+        "C11" => vec![h(12000, 256000)],
+        "C12" => vec![h(16000, 384000)],
+        "C13" => vec![h(12000, 256000)],
+        "C14" => vec![h(12000, 256000)],
+        "C15" => vec![h(16000, 384000)],
+        "C16" => vec![pp("diff-exhaustive", 16, 0)],
+        "C19" => vec![h(8000, 128000), if t { pp("revs", 16, 400_000 / 16) } else { pp("revs", 16, 20_000 / 16) }],
         _ => vec![],
     }
 }
@@ -58,10 +60,19 @@ pub fn level(prop: &str) -> (&'static str, Vec<&'static str>) {
 }
 
 pub fn rule(prop: &str, tier: &str) -> String {
+    let mut v: Vec<String> = vec![];
     if let Some(c) = props::hist_cfg(prop, tier == "thorough") {
-        return c.rule.to_string();
+        v.push(format!("[hist] {}", c.rule));
     }
-    String::new()
+    match prop {
+        "C02" => v.push("[deliver] a generated multi-replica history builds a block graph; all its item files are delivered one at a time in a generated permutation (optionally packs last, optionally permuted listing) to a fresh replica with refresh after each file (= every prefix of the permutation); graphs with <=4 (quick) / <=5 (thorough) items: every permutation; after each delivery: incremental == full reload, applied set == reference causal closure, state == replica holding only the closure, heads == closure heads; non-trivial = >=4 items with a child block delivered before a parent and a block before its pack".into()),
+        "C05" => v.push("[trees] generated (revision,parent) sets: several creations, update/delete/marker children, dangling parents, chains past index 10/100, inserted in 2-6 generated permutations via add and unvalidated_add+validate; RevisionTree leaves/winner vs reference rule; non-trivial = >=2 live leaves and (marker | dangling parent | index>=10). [tree-exhaustive] every shape with <=4 (quick) / <=5 (thorough) nodes x every insertion order".into()),
+        "C06" => v.push("[merge-exhaustive] merge_arrays on every ordered pair of duplicate-free sequences (6 symbols/len<=6 quick; 7 symbols/len<=6 thorough) and every triple folded on a base (5/4; 6/4): union exactly once, base order kept, other order kept when the versions agree on common elements; non-trivial = both sides contribute an element or disagree on order".into()),
+        "C16" => v.push("[diff-exhaustive] every ordered pair of sequences with repeats over 4 symbols (len<=5 quick, <=6 thorough): apply(make(a,b),a)==b with melda's applier and, after a JSON text round trip, with the reference applier; script empty iff a==b; non-trivial = script with >=2 operations".into()),
+        "C19" => v.push("[revs] generated revision pools built through the Revision API (creation/update/deletion/marker, chains crossing 9->10, 99->100, 999->1000): purity, new_updated == new(index+1), identifier == reference function of (digest, parent id), print/parse round trip incl. hash, and over generated triples totality/antisymmetry/transitivity/consistency with equality and agreement with the reference order; non-trivial = triple mixing marker+deletion+update or a boundary-crossing chain".into()),
+        _ => {}
+    }
+    v.join(" || ")
 }
 
 fn hist_case(cfg: &props::HistCfg, case: &props::Case) -> CaseRes {
@@ -77,6 +88,15 @@ pub fn run_part(prop: &str, part: &str, tier: &str, cases: u32, seed: u64, _shar
             let strat = props::case_strategy(&cfg);
             runner::drive("hist", prop, strat, cases, seed, |c| hist_case(&cfg, c))
         }
+        "trees" => runner::drive("trees", prop, crate::unit::tree_strategy(), cases, seed, crate::unit::run_tree),
+        "revs" => runner::drive("revs", prop, crate::unit::rev_strategy(), cases, seed, crate::unit::run_rev),
+        "tree-exhaustive" => crate::unit::tree_exhaustive(tier == "thorough", _shard, _nshards),
+        "merge-exhaustive" => crate::unit::merge_exhaustive(tier == "thorough", _shard, _nshards),
+        "diff-exhaustive" => crate::unit::diff_exhaustive(tier == "thorough", _shard, _nshards),
+        "deliver" => {
+            let th = tier == "thorough";
+            runner::drive("deliver", prop, crate::c02::strategy(th), cases, seed, |c| crate::c02::run(c, th))
+        }
         _ => WorkerResult { part: part.to_string(), notes: vec![format!("unknown part {}", part)], ..Default::default() },
     }
 }
@@ -87,6 +107,18 @@ pub fn replay_part(prop: &str, part: &str, case: &Value) -> Option<(String, Stri
             let cfg = props::hist_cfg(prop, false)?;
             let case: props::Case = serde_json::from_value(case.clone()).ok()?;
             runner::replay(prop, &case, 20, |c| hist_case(&cfg, c))
+        }
+        "trees" => {
+            let case: crate::unit::TreeCase = serde_json::from_value(case.clone()).ok()?;
+            runner::replay(prop, &case, 1, crate::unit::run_tree)
+        }
+        "revs" => {
+            let case: crate::unit::RevCase = serde_json::from_value(case.clone()).ok()?;
+            runner::replay(prop, &case, 1, crate::unit::run_rev)
+        }
+        "deliver" => {
+            let case: crate::c02::C02Case = serde_json::from_value(case.clone()).ok()?;
+            runner::replay(prop, &case, 20, |c| crate::c02::run(c, false))
         }
         _ => None,
     }
